@@ -198,6 +198,8 @@ func init() {
 		ruleLockstep(c, r)
 		rulePartialKey(c, r)
 		ruleWildcardOpt(c, r)
+		rulePredicateKey(c, r)
+		ruleVisitorCopy(c, r)
 	})
 }
 
@@ -206,6 +208,7 @@ func init() {
 		r.Decides("PruneConfigFalse always walks the struct it is given with the schema it is given; the iterator's only write zeroes the visited field and is reached only for a schema that util.IsConfig reports false; fields are skipped only for the documented reasons; IsConfig is goyang's inherited config decision.",
 			"that util.Walk visits every populated field of every tree (traversal completeness); value-level equality of the config-true remainder.")
 		rulePruneConfigFalse(c, r)
+		ruleSchemaRebuild(c, r)
 	})
 }
 
@@ -239,6 +242,7 @@ func init() {
 		ruleEnumByNumber(c, r)
 		ruleKeyPresence(c, r)
 		ruleResultKeys(c, r)
+		ruleListMemberSet(c, r)
 	})
 }
 
@@ -272,6 +276,7 @@ func init() {
 		ruleOrderedMapTemplates(c, r)
 		ruleOrderedMapTraversal(c, r)
 		ruleDiffGuards(c, r)
+		ruleSetOrder(c, r)
 	})
 	register("C34", func(c *Ctx, r *Report) {
 		r.Decides("the keyed-list helper code that gogen's templates expand to, for every key shape in the analyser's table, obeys the keyed-map discipline method by method (New/Append reject duplicates and nil keys before writing, Get never writes, GetOrCreate creates only on a miss, Delete removes only the key, Rename validates first, updates every key leaf from newK and moves the entry).",
